@@ -53,7 +53,7 @@ REQUIRED = ["contract_evals_" + o for o in OPS_REQUIRED] + [
     "steps_executed", "probe_output_poison", "probe_input_poison", "roundtrip_steps",
     "identity_transform_steps", "same_tree_in_two_argument_positions",
     "steps_on_readonly_columns"]
-FLOOR = {"quick": 300, "thorough": 6000}
+FLOOR = {"quick": 300, "thorough": 30000}
 SHARDS = {"quick": 8, "thorough": 16}
 
 POISON_F, POISON_I = np.float32(-7.77e7), -77
@@ -334,7 +334,7 @@ def execute(ctx, case):
 def run(ctx):
     rec = contracts.install()
     rng = ctx.rng
-    n_pipes = ctx.scale(700, 12000)
+    n_pipes = ctx.scale(700, 60000)
     for k in range(n_pipes):
         rc = G.random_recipe(rng, max_n=G.size_ladder(ctx, k, 10, 40, 150), extras=0,
                              geoms=["growth", "gauss", "far", "int", "quarter", "coincident", "plane",
